@@ -162,6 +162,7 @@ pub fn dispatch(cmd: &str, args: &[String]) -> i32 {
         "to-algebraic" => to_algebraic_all(args),
         "uci-loop" => { Flounder::new().uci_loop(); 0 }
         "uci-session" => uci_session(args),
+        "uci-process" => uci_process(args),
         _ => { eprintln!("unknown command {}", cmd); 2 }
     }
 }
@@ -202,7 +203,7 @@ fn movegen(args: &[String]) -> i32 {
                 let nb = b.clone_with_move(m);
                 let np = apply(p, rm);
                 rep.evals += 1;
-                if eng_pos_string(&nb) != ref_pos_string(&np) || nb.halfmove_clock != b.halfmove_clock || nb.fullmove_counter != b.fullmove_counter {
+                if eng_pos_string(&nb) != ref_pos_string(&np) {   // (the two move counters are not part of C02's statement: not compared)
                     rep.violation = Some(format!("{{\"input\": {{\"fen\": {}, \"move\": {}}}, \"real\": {}, \"expected\": {}}}", jstr(&fen), jstr(&u), jstr(&eng_pos_string(&nb)), jstr(&ref_pos_string(&np))));
                     return rep.finish();
                 }
@@ -644,6 +645,93 @@ fn uci_session(args: &[String]) -> i32 {
     finish(rep, &mut child, &mut cin)
 }
 
+// ------------------------------------------------------------------------------------------------ C16
+/// C16 (bounded, process level): scripted sessions through the real `uci_loop` in a child process (the same two statements as
+/// `main`): the bytes on stdout - `info` lines removed, the move of a `bestmove` line not compared - must be exactly the replies
+/// the protocol prescribes, line by line; unknown, blank and malformed lines produce nothing; the process ends with status 0 on
+/// `quit` and at end of input, within a time limit.
+fn uci_process(args: &[String]) -> i32 {
+    use std::io::{Read, Write};
+    use std::process::{Command, Stdio};
+    let seed = seed_arg(args);
+    let n = num_arg(args, "sessions", 40);
+    let maxlen = num_arg(args, "lines", 14);
+    let wait_s = num_arg(args, "wait", 20) as u64;
+    let mut rep = Report::new("uci-process", &format!("the empty session, the four single-command sessions and {} pseudo-random sessions (seed {}) of <= {} lines over a vocabulary of known commands, unknown UCI commands (stop, debug, setoption, register, ponderhit), garbage, blank and white-space lines, a line that is not valid UTF-8 (shown as <INVALID-UTF8>), wrong-case commands; each ended by quit or by end of input; stdout compared line by line, exit status 0 within {} s", n, seed, maxlen, wait_s));
+    let vocab = ["uci", "isready", "ucinewgame", "", "   ", "\t", "stop", "debug on", "setoption name Hash value 16", "register later", "ponderhit",
+        "xyzzy", "hello world 1 2 3", "UCI", "IsReady", "isready now", "  isready  ", "uci\tuci", "quitt", "position", "position startpos",
+        "position startpos moves e2e4 e7e5", "go depth 1", "go depth 2", "position fen 7k/5Q2/6K1/8/8/8/8/8 b - - 0 1", "go movetime 0", "bestmove e2e4", "readyok", "uciok", "id name x",
+        "position fen", "position fen 8/8 w", "<INVALID-UTF8>", "\u{00e9}\u{00e8} \u{4e2d}"];
+    let mut rng = seed.wrapping_mul(0x9E3779B97F4A7C15) | 1;
+    let mut next = |m: usize| -> usize { rng ^= rng << 13; rng ^= rng >> 7; rng ^= rng << 17; (rng % m as u64) as usize };
+    let mut sessions: Vec<(Vec<String>, bool)> = vec![(vec![], false), (vec![], true), (vec!["uci".into()], false), (vec!["isready".into()], false),
+        (vec!["ucinewgame".into()], false), (vec!["nonsense".into()], false), (vec!["uci".into(), "isready".into()], true), (vec!["<INVALID-UTF8>".into(), "isready".into()], false)];
+    for _ in 0..n {
+        let len = 1 + next(maxlen);
+        let lines: Vec<String> = (0..len).map(|_| vocab[next(vocab.len())].to_string()).collect();
+        sessions.push((lines, next(2) == 0));
+    }
+    let exe = std::env::current_exe().expect("exe");
+    for (lines, quit) in sessions.iter() {
+        let mut script = String::new();
+        let mut bytes: Vec<u8> = Vec::new();
+        for l in lines {
+            script.push_str(l); script.push('\n');
+            if l == "<INVALID-UTF8>" { bytes.extend_from_slice(&[0xff, 0xfe, b'i', b's', b'r', b'e', b'a', b'd', b'y']); } else { bytes.extend_from_slice(l.as_bytes()); }
+            bytes.push(b'\n');
+        }
+        if *quit { script.push_str("quit\n"); bytes.extend_from_slice(b"quit\n"); }
+        // what the protocol prescribes
+        let mut want: Vec<String> = Vec::new();
+        for l in lines {
+            let t: Vec<&str> = l.split_whitespace().collect();
+            if t.is_empty() || l == "<INVALID-UTF8>" { continue; }
+            match t[0] { "uci" => want.push("<id lines> uciok".into()), "isready" => want.push("readyok".into()), "go" => want.push("bestmove".into()), _ => {} }
+        }
+        let mut child = Command::new(&exe).arg("uci-loop").stdin(Stdio::piped()).stdout(Stdio::piped()).stderr(Stdio::piped()).spawn().expect("spawn");
+        { let mut cin = child.stdin.take().unwrap(); let _ = cin.write_all(&bytes); let _ = cin.flush(); }   // dropped: end of input
+        let mut cout = child.stdout.take().unwrap();
+        let reader = std::thread::spawn(move || { let mut s = String::new(); let _ = cout.read_to_string(&mut s); s });
+        let t0 = std::time::Instant::now();
+        let mut status = None;
+        while t0.elapsed().as_secs() < wait_s {
+            match child.try_wait() { Ok(Some(st)) => { status = Some(st); break; } _ => std::thread::sleep(std::time::Duration::from_millis(10)) }
+        }
+        let timed_out = status.is_none();
+        if timed_out { let _ = child.kill(); let _ = child.wait(); }
+        let out = reader.join().unwrap_or_default();
+        let mut err = String::new();
+        if let Some(mut e) = child.stderr.take() { let _ = e.read_to_string(&mut err); }
+        rep.evals += 1;
+        // fold the output into the same vocabulary
+        let mut got: Vec<String> = Vec::new();
+        let mut ids = 0usize;
+        let mut bad_line: Option<String> = None;
+        for l in out.lines() {
+            if l.starts_with("info ") || l == "info" { continue; }
+            if l.starts_with("id ") || (ids > 0 && l.starts_with("option ")) { ids += 1; continue; }
+            if l == "uciok" { if ids >= 1 { got.push("<id lines> uciok".into()); } else { got.push("uciok without id lines".into()); } ids = 0; continue; }
+            if ids > 0 { bad_line = Some(format!("id lines not followed by uciok: {}", l)); break; }
+            if l == "readyok" { got.push("readyok".into()); continue; }
+            if l.starts_with("bestmove ") && l.split_whitespace().count() == 2 { got.push("bestmove".into()); continue; }
+            bad_line = Some(l.to_string()); break;
+        }
+        if ids > 0 && bad_line.is_none() { bad_line = Some("id lines not followed by uciok".into()); }
+        let code = status.and_then(|s| s.code());
+        let ok = !timed_out && code == Some(0) && bad_line.is_none() && got == want;
+        if !ok {
+            rep.violation = Some(format!("{{\"input\": {{\"stdin\": {}, \"ends_with\": {}}}, \"real\": {{\"stdout_without_info_lines\": {}, \"exit_status\": {}, \"still_running_after_s\": {}, \"unexpected_line\": {}, \"stderr\": {}}}, \"expected\": {{\"replies\": {:?}, \"exit_status\": 0}}}}",
+                jstr(&script), jstr(if *quit { "quit" } else { "end of input" }), jstr(&out.lines().filter(|l| !l.starts_with("info")).collect::<Vec<_>>().join("\n")),
+                code.map(|c| c.to_string()).unwrap_or("null".into()), if timed_out { wait_s.to_string() } else { "null".into() },
+                bad_line.as_ref().map(|b| jstr(b)).unwrap_or("null".into()), jstr(&err.chars().take(300).collect::<String>()), want));
+            return rep.finish();
+        }
+        rep.distinct += 1;
+        if rep.distinct % 12 == 1 { rep.sample(jstr(&script)); }
+    }
+    rep.finish()
+}
+
 // ------------------------------------------------------------------------------------------------ C07
 fn overrun(args: &[String]) -> i32 {
     let bound = num_arg(args, "bound", 70) as u64;
@@ -819,6 +907,31 @@ fn random_games(seed: u64, games: usize, plies: usize) -> Vec<(RPos, Vec<RMove>)
 /// C09: after `position ... moves ...` the searcher's game history holds exactly the positions before the current one;
 /// with the current one on top (as search_position pushes it) a successor counts as a repetition draw iff it occurred at
 /// least twice in the game so far; a second position command forgets the first history.
+const LOPSIDED: [&str; 8] = ["6k1/5ppp/8/8/8/8/q7/6K1 w - - 0 1", "6k1/Q7/8/8/8/8/5PPP/6K1 b - - 0 1", "7k/6pp/8/8/3n4/8/r7/5K2 w - - 0 1",
+        "5k2/R7/8/3N4/8/8/6PP/7K b - - 0 1", "8/8/8/4k3/8/8/3RK3/8 b - - 0 1", "4k3/8/8/8/8/2n5/8/R3K3 b - - 0 1",
+        "r3k3/8/8/8/8/8/2N5/4K3 w - - 0 1", "6k1/5ppp/8/8/8/8/q7/6K1 b - - 0 1"];
+/// reversible four-ply shuffles from p0 (each side moves a piece out and back; the position after the fourth ply is p0 again)
+fn find_cycles(p0: &RPos, max: usize) -> Vec<[RMove; 4]> {
+    let quiet_piece = |p: &RPos, m: &RMove| p.sq[m.to as usize].is_none() && m.promo.is_none() && matches!(p.sq[m.from as usize], Some((_, pc)) if pc != Pc::P)
+        && !(matches!(p.sq[m.from as usize], Some((_, Pc::K))) && (m.from as i32 - m.to as i32).abs() == 2);
+    let mut cycles: Vec<[RMove; 4]> = Vec::new();
+    'find: for m1 in legal_moves(p0).into_iter().filter(|m| quiet_piece(p0, m)) {
+        let p1 = apply(p0, m1);
+        for m2 in legal_moves(&p1).into_iter().filter(|m| quiet_piece(&p1, m)) {
+            let p2 = apply(&p1, m2);
+            let m3 = RMove { from: m1.to, to: m1.from, promo: None };
+            if !legal_moves(&p2).contains(&m3) { continue; }
+            let p3 = apply(&p2, m3);
+            let m4 = RMove { from: m2.to, to: m2.from, promo: None };
+            if !legal_moves(&p3).contains(&m4) { continue; }
+            if ref_pos_string(&apply(&p3, m4)) != ref_pos_string(p0) { continue; }
+            cycles.push([m1, m2, m3, m4]);
+            if cycles.len() >= max { break 'find; }
+            break;
+        }
+    }
+    cycles
+}
 fn game_history(args: &[String]) -> i32 {
     let seed = seed_arg(args);
     let games = num_arg(args, "games", 60);
@@ -867,29 +980,10 @@ fn game_history(args: &[String]) -> i32 {
     // can matter only through the repetition test of the root's successors, so by the property
     //   no successor with two earlier occurrences  =>  same score as the bare set-up;
     //   some such successor and the bare score < 0  =>  score exactly 0 and the chosen move is one of them.
-    let lopsided = ["6k1/5ppp/8/8/8/8/q7/6K1 w - - 0 1", "6k1/Q7/8/8/8/8/5PPP/6K1 b - - 0 1", "7k/6pp/8/8/3n4/8/r7/5K2 w - - 0 1",
-        "5k2/R7/8/3N4/8/8/6PP/7K b - - 0 1", "8/8/8/4k3/8/8/3RK3/8 b - - 0 1", "4k3/8/8/8/8/2n5/8/R3K3 b - - 0 1",
-        "r3k3/8/8/8/8/8/2N5/4K3 w - - 0 1", "6k1/5ppp/8/8/8/8/q7/6K1 b - - 0 1"];
-    let quiet_piece = |p: &RPos, m: &RMove| p.sq[m.to as usize].is_none() && m.promo.is_none() && matches!(p.sq[m.from as usize], Some((_, pc)) if pc != Pc::P)
-        && !(matches!(p.sq[m.from as usize], Some((_, Pc::K))) && (m.from as i32 - m.to as i32).abs() == 2);
+    let lopsided = LOPSIDED;
     for f in lopsided {
         let Some(p0) = parse_fen(f) else { continue };
-        let mut cycles: Vec<[RMove; 4]> = Vec::new();
-        'find: for m1 in legal_moves(&p0).into_iter().filter(|m| quiet_piece(&p0, m)) {
-            let p1 = apply(&p0, m1);
-            for m2 in legal_moves(&p1).into_iter().filter(|m| quiet_piece(&p1, m)) {
-                let p2 = apply(&p1, m2);
-                let m3 = RMove { from: m1.to, to: m1.from, promo: None };
-                if !legal_moves(&p2).contains(&m3) { continue; }
-                let p3 = apply(&p2, m3);
-                let m4 = RMove { from: m2.to, to: m2.from, promo: None };
-                if !legal_moves(&p3).contains(&m4) { continue; }
-                if ref_pos_string(&apply(&p3, m4)) != ref_pos_string(&p0) { continue; }
-                cycles.push([m1, m2, m3, m4]);
-                if cycles.len() >= 3 { break 'find; }
-                break;
-            }
-        }
+        let cycles = find_cycles(&p0, 3);
         for cyc in cycles {
             for n in 0..=10usize {
                 let ms: Vec<RMove> = (0..n).map(|i| cyc[i % 4]).collect();
@@ -1110,30 +1204,33 @@ fn minimax_cmd(args: &[String]) -> i32 {
 fn mate_in_one(args: &[String]) -> i32 {
     let seed = seed_arg(args);
     let walks = num_arg(args, "walks", 200);
-    let mut rep = Report::new("mate-in-one", &format!("corpus positions (seed {}, {} walks): every position with a mate in one x depth 1..4; every position mixing moves that do / do not allow mate in one x depth 2..3", seed, walks));
+    let mut rep = Report::new("mate-in-one", &format!("corpus positions (seed {}, {} walks): every position with a mate in one x depth 1..4; every position mixing moves that do / do not allow mate in one x depth 2..3; each also with half-move clocks 99, 98, 100 in the FEN (depth 1..2 resp. 2..3)", seed, walks));
     let mates_in_one = |p: &RPos| -> Vec<RMove> { legal_moves(p).into_iter().filter(|m| { let n = apply(p, *m); legal_moves(&n).is_empty() && in_check(&n, n.stm) }).collect() };
     for p in corpus(seed, walks, 40).iter() {
-        let fen = to_fen(p);
-        let b = eng_board(p);
+        let fen0 = to_fen(p);
         let lm = legal_moves(p);
         if lm.is_empty() { continue; }
         let m1 = mates_in_one(p);
-        if !m1.is_empty() {
-            for d in 1..=4u8 {
-                let mut s = Searcher::new();
-                let (_, mv) = s.find_best_move(&b, d, None);
-                rep.evals += 1;
-                let ok = mv.map(|m| m1.iter().any(|x| x.uci() == m.to_algebraic())).unwrap_or(false);
-                if !ok {
-                    rep.violation = Some(format!("{{\"input\": {{\"fen\": {}, \"depth\": {}}}, \"real\": {{\"bestmove\": {}}}, \"expected\": {}}}", jstr(&fen), d,
-                        jstr(&mv.map(|m| m.to_algebraic()).unwrap_or("0000".into())), jstr(&format!("a mating move: one of {:?}", m1.iter().map(|m| m.uci()).collect::<Vec<_>>()))));
-                    return rep.finish();
+        let allows: Vec<String> = if m1.is_empty() { lm.iter().filter(|m| !mates_in_one(&apply(p, **m)).is_empty()).map(|m| m.uci()).collect() } else { vec![] };
+        if m1.is_empty() && (allows.is_empty() || allows.len() == lm.len()) { continue; }
+        // the move counters are part of a valid position too: late values of the half-move clock (fifty-move territory) must not
+        // change either answer - checkmate ends the game whatever the clock says
+        for (ci, clk) in [" 0 1", " 99 80", " 98 80", " 100 90"].iter().enumerate() {
+            let fen = if fen0.ends_with(" 0 1") { format!("{}{}", &fen0[..fen0.len() - 4], clk) } else { if ci > 0 { continue; } fen0.clone() };
+            let b = Board::new(&fen);
+            if !m1.is_empty() {
+                for d in 1..=(if ci == 0 { 4u8 } else { 2 }) {
+                    let mut s = Searcher::new();
+                    let (_, mv) = s.find_best_move(&b, d, None);
+                    rep.evals += 1;
+                    let ok = mv.map(|m| m1.iter().any(|x| x.uci() == m.to_algebraic())).unwrap_or(false);
+                    if !ok {
+                        rep.violation = Some(format!("{{\"input\": {{\"fen\": {}, \"depth\": {}}}, \"real\": {{\"bestmove\": {}}}, \"expected\": {}}}", jstr(&fen), d,
+                            jstr(&mv.map(|m| m.to_algebraic()).unwrap_or("0000".into())), jstr(&format!("a mating move: one of {:?}", m1.iter().map(|m| m.uci()).collect::<Vec<_>>()))));
+                        return rep.finish();
+                    }
                 }
-            }
-            rep.distinct += 1;
-        } else {
-            let allows: Vec<String> = lm.iter().filter(|m| !mates_in_one(&apply(p, **m)).is_empty()).map(|m| m.uci()).collect();
-            if !allows.is_empty() && allows.len() < lm.len() {
+            } else {
                 for d in 2..=3u8 {
                     let mut s = Searcher::new();
                     let (_, mv) = s.find_best_move(&b, d, None);
@@ -1143,10 +1240,10 @@ fn mate_in_one(args: &[String]) -> i32 {
                         return rep.finish();
                     } }
                 }
-                rep.distinct += 1;
             }
         }
-        if rep.distinct % 25 == 1 { rep.sample(jstr(&fen)); }
+        rep.distinct += 1;
+        if rep.distinct % 25 == 1 { rep.sample(jstr(&fen0)); }
     }
     rep.finish()
 }
@@ -1170,11 +1267,12 @@ fn cmp_movegen(mg: &MoveGenerator, p: &RPos, rep: &mut Report) -> bool {
 }
 /// exhaustive small-board families (complete within each family, time-capped across families):
 ///  (A) en passant: capturing pawn x pushed pawn x mover's king anywhere x one enemy line piece anywhere (x a second own man)
+///  (C) promotions: pawn on the seventh x mover's king anywhere x one enemy man anywhere
 ///  (B) four men: both kings + one man of the mover + one enemy man (all kinds, all squares), either side to move
 fn movegen_small(args: &[String]) -> i32 {
     let secs = num_arg(args, "secs", 60) as u64;
     let t0 = std::time::Instant::now();
-    let mut rep = Report::new("movegen-small", &format!("exhaustive small-board families, time cap {} s: (A) all en-passant set-ups with the mover's king anywhere and one enemy bishop/rook/queen anywhere; (B) mover's king anywhere, enemy king on a1 or h8, one man each (all kinds, all squares, both sides to move), enumerated in a fixed order (enemy line pieces first) until the cap", secs));
+    let mut rep = Report::new("movegen-small", &format!("exhaustive small-board families, time cap {} s: (A) all en-passant set-ups with the mover's king anywhere and one enemy bishop/rook/queen anywhere; (C) all promotion set-ups (pawn on its seventh rank on every file, mover's king anywhere, one enemy man of any kind anywhere, enemy king in a far corner), complete; (B) mover's king anywhere, enemy king on a1 or h8, one man each (all kinds, all squares, both sides to move), enumerated in a fixed order (enemy line pieces first) until the cap", secs));
     let mg = MoveGenerator::new();
     // (A)
     for white in [true, false] {
@@ -1200,6 +1298,26 @@ fn movegen_small(args: &[String]) -> i32 {
         } }
     }
     let a_done = rep.distinct;
+    // (C) promotions: a pawn of the mover on its seventh rank (every file), the mover's king anywhere, the enemy king in a far
+    //     corner, one enemy man of any kind anywhere (on the eighth rank beside the pawn it can be captured with promotion,
+    //     on a line through the pawn it pins it): all four promotion pieces must come out exactly when the rules allow them
+    for white in [true, false] {
+        let (me, op) = if white { (Col::W, Col::B) } else { (Col::B, Col::W) };
+        let r7 = if white { 6usize } else { 1usize };
+        for f in 0..8usize { let pw = r7 * 8 + f;
+            for ek in [if white { 0usize } else { 63 }, if white { 7 } else { 56 }] {
+                for k in 0..64usize { for e in 0..64usize { for pc in [Pc::Q, Pc::R, Pc::B, Pc::N] {
+                    if k == pw || e == pw || ek == pw || k == ek || e == ek || e == k { continue; }
+                    let mut p = empty_pos(me);
+                    p.sq[pw] = Some((me, Pc::P)); p.sq[k] = Some((me, Pc::K)); p.sq[ek] = Some((op, Pc::K)); p.sq[e] = Some((op, pc));
+                    if !valid(&p) { continue; }
+                    if !cmp_movegen(&mg, &p, &mut rep) { return rep.finish(); }
+                    rep.distinct += 1;
+                } } }
+            }
+        }
+    }
+    let c_done = rep.distinct - a_done;
     // (B)
     let kinds = [Pc::Q, Pc::R, Pc::B, Pc::N, Pc::P];
     'outer: for stm in [Col::W, Col::B] { for own in kinds { for en in kinds { for k in 0..64usize { for ek in [0usize, 63] { if ek == k { continue; }
@@ -1212,7 +1330,7 @@ fn movegen_small(args: &[String]) -> i32 {
         } }
         if t0.elapsed().as_secs() > secs { break 'outer; }
     } } } } }
-    rep.sample(jstr(&format!("family A positions: {}, family B positions: {}", a_done, rep.distinct - a_done)));
+    rep.sample(jstr(&format!("family A positions: {}, family C positions: {}, family B positions: {}", a_done, c_done, rep.distinct - a_done - c_done)));
     rep.finish()
 }
 
@@ -1223,7 +1341,7 @@ fn newgame_cmd(args: &[String]) -> i32 {
     let seed = seed_arg(args);
     let n = num_arg(args, "positions", 12);
     let maxd = num_arg(args, "depth", 3) as u8;
-    let mut rep = Report::new("newgame", &format!("{} corpus positions (seed {}) x depth 1..{}: two engine instances with independent key draws agree on (score, move, nodes); an engine that played another game and received ucinewgame agrees with a fresh one", n, seed, maxd));
+    let mut rep = Report::new("newgame", &format!("{} corpus positions (seed {}) x depth 1..{}: two engine instances with independent key draws agree on (score, move, nodes); an engine that played another game and received ucinewgame agrees with a fresh one; + 8 lopsided positions x <= 2 shuffle cycles x 6/8/9 plies of history (repetition rule live), two fresh engines agree", n, seed, maxd));
     // the first 8 as before; beyond them only positions whose quiescence trees stay small (<= 10 men, no pawn about to promote)
     let small = |p: &RPos| p.sq.iter().filter(|x| x.is_some()).count() <= 10 && !(8..16).any(|i| p.sq[i] == Some((Col::B, Pc::P))) && !(48..56).any(|i| p.sq[i] == Some((Col::W, Pc::P)));
     let positions: Vec<RPos> = corpus(seed, 30, 20).into_iter().filter(|p| p.sq.iter().filter(|x| x.is_some()).count() <= 14 && !legal_moves(p).is_empty())
@@ -1261,6 +1379,32 @@ fn newgame_cmd(args: &[String]) -> i32 {
         a.verif_handle_command("ucinewgame"); b.verif_handle_command("ucinewgame"); used.verif_handle_command("ucinewgame");
         rep.distinct += 1;
         if rep.distinct % 4 == 1 { rep.sample(jstr(&fen)); }
+    }
+    // games with a history: after shuffles that bring positions about twice the repetition rule is live in the search, and what it
+    // does must not depend on the key draw either (scores, moves, node counts of two fresh engines after the same commands)
+    for f in LOPSIDED {
+        let Some(p0) = parse_fen(f) else { continue };
+        for cyc in find_cycles(&p0, 2) {
+            for n in [6usize, 8, 9] {
+                let list: Vec<String> = (0..n).map(|i| cyc[i % 4].uci()).collect();
+                let cmd = format!("position fen {} moves {}", f, list.join(" "));
+                let mut a = Flounder::new();
+                let mut b = Flounder::new();
+                a.verif_handle_command(&cmd); b.verif_handle_command(&cmd);
+                for d in 1..=maxd.min(4) {
+                    let ba = a.verif_board().clone();
+                    let ra = a.verif_searcher().find_best_move(&ba, d, None); let na = a.verif_searcher().verif_nodes();
+                    let rb = b.verif_searcher().find_best_move(&ba, d, None); let nb = b.verif_searcher().verif_nodes();
+                    rep.evals += 1;
+                    let show = |r: &(i32, Option<Move>), n: u64| format!("score {} move {} nodes {}", r.0, r.1.map(|m| m.to_algebraic()).unwrap_or("0000".into()), n);
+                    if ra != rb || na != nb {
+                        rep.violation = Some(format!("{{\"input\": {{\"cmds\": [{}], \"depth\": {}, \"what\": \"two fresh engines (independent key draws) after a game with repeated positions\"}}, \"real\": {}, \"expected\": {}}}", jstr(&cmd), d, jstr(&show(&rb, nb)), jstr(&show(&ra, na))));
+                        return rep.finish();
+                    }
+                }
+            }
+            rep.distinct += 1;
+        }
     }
     rep.finish()
 }
